@@ -1,5 +1,5 @@
 #!/bin/sh
 # quick manual driver: tools/runcat.sh <prop> <variant> [fn] 
-gcc -O1 -g -Wall -Wno-unused-function -o /verif/build/cat/cat /verif/engine/cat/cat.c /verif/engine/cat/fntab.c -ldl || exit 2
+gcc -O1 -g -Wall -Wno-unused-function -o /verif/build/cat/cat /verif/engine/cat/cat.c /verif/engine/cat/fntab.c /verif/engine/trapvm/trapvm.c -pthread || exit 2
 export CAT_LIB=$(python3 /verif/engine/vbuild.py ${2:-prod})
 /verif/build/cat/cat run $1 ${TIER:-quick} ${2:-prod} ${LOC:-C} ${3:-all}
